@@ -88,17 +88,17 @@ M_RELEVANT = {
     "value-bits-changed": {"negative-zero", "tsid-preimage-collision", "name-regex-same-tagset"},
     "query-error": set(),
 }
-M_AGG = M_SELECT | M_LABELS | {"name-regex-same-tagset", "by-label-absent", "hetero-keys", "by-label-suffix-of-other-key", "without-removes-all-labels"}
+M_AGG = M_SELECT | M_LABELS | {"name-regex-same-tagset", "by-label-suffix-of-other-key", "empty-group-key"}
 
 
 def m_sig(what, cls):
-    """e2em/<what> for inputs outside every recorded deviation class that could explain <what>, else
-    e2em/<what>/<class+class> (the aggregation function is part of <what> only in the first case)"""
+    """e2em/<what> (series-missing, value-bits-changed, agg/<fn>, …) for inputs outside every recorded deviation class that
+    could explain <what>; else e2em/in-class/<class+class>: the witness class is the input class, what went wrong is in the message"""
     rel = M_AGG if what.startswith("agg") else M_RELEVANT.get(what, set())
     c = "+".join(sorted(set(c for c in cls if c and c in rel)))
     if not c:
         return "e2em/" + what
-    return "e2em/%s/%s" % ("agg" if what.startswith("agg/") else what, c)
+    return "e2em/in-class/" + c
 
 
 def m_parse_series(s):
@@ -168,7 +168,7 @@ def compare_metrics(ia, mb, qi):
     if missing or extra:
         if agg:
             fails.append((m_sig("agg-groups", cls), "query %d: groups missing %s, groups not expected %s" % (qi, [m_show(k) for k in missing][:4], [m_show(k) for k in extra][:4])))
-        elif missing and extra and any(E[m][0] == G[x][0] for m in missing for x in extra):
+        elif missing and extra and (any(E[m][0] == G[x][0] for m in missing for x in extra) or ("unaligned" in lat and len(missing) == len(extra))):
             # the same points under other labels
             fails.append((m_sig("labels-changed", cls), "query %d: series %s not returned, series %s (same points) returned but never ingested under these labels" % (qi, [m_show(k) for k in missing][:4], [m_show(k) for k in extra][:4])))
         elif missing and extra:
